@@ -30,7 +30,7 @@ def main():
     all_props = "--all-props" in sys.argv
     ids = args or sorted(os.path.basename(d) for d in glob.glob(os.path.join(VERIF, "seeded", "*")) if os.path.isdir(d))
     man = json.load(open(os.path.join(VERIF, "MANIFEST.json")))
-    claimed = [p["id"] for p in man["properties"]]
+    claimed = sorted({c["property_id"] for c in man["checks"]})
     if not clean():
         print("refusing: /repo has local modifications", file=sys.stderr)
         return 2
